@@ -121,7 +121,7 @@ CHECKS = {
          "exact when 1/x has <= p digits) and compared exactly with the model, which receives the real f64 guess through a hook and reports non-termination within 400 steps.",
          "The premise about the guess is itself a theorem on the main path: C12_guess_premise - for every magnitude of at most 1074 bits (324 digits) the model of make_inv_guess (LN_2 * exp2(-bits) in f64 through "
          "the rounding primitive, subnormal results included, converted exactly by the from-float model of C14) is a positive decimal within 94% of 1/x; C12_inverse_total_main_path then states termination and "
-         "accuracy with no premise. Modelled rather than verified: exp2 of an integer is the exact power of two and the f64 product is correctly rounded (the driver compares the modelled guess with the one the real "
+         "accuracy with no premise (C12_inverse_total_backup_path is the same statement for 1075..2^32 bits under the float-kernel assumption below). Modelled rather than verified: exp2 of an integer is the exact power of two and the f64 product is correctly rounded (the driver compares the modelled guess with the one the real "
          "code hands over through a hook on every such input: tag +guess-model-differs, never seen). For longer magnitudes (the back-up path: bits*LOG10_2 in f64, split into integer and fraction, 10^-fraction through libm exp10, times LN_2, as f32) "
          "C12_backup_guess_premise proves the premise up to 2^32 bits under one stated assumption about the float kernel - the f32 factor (LN_2 * exp10(-frac)) as f32 is within 2% of ln2 * 10^-frac (libm is not modelled): "
          "the f64 product with its two roundings, the split, the scale bookkeeping, and that 10^-(int+frac) equals 2^-bits up to 0.7% (log10 2 enclosed between its convergents 97879/325147 and 1838395/6107016 "
